@@ -12,7 +12,7 @@ import ast
 import math
 import operator
 from fractions import Fraction
-from typing import Any, Callable, Dict, Optional
+from typing import Set, Any, Callable, Dict, Optional
 
 from .core import ClassInfo, External, FuncInfo, Module, Repo, dotted, unparse
 
@@ -1656,7 +1656,21 @@ class Folder:
                         raise Unfoldable(unparse(e))
                 return res_p
             if isinstance(v, Abstract) and isinstance(getattr(v, "_isa_", None), (set, frozenset)):
-                return any((k or "?").split(".")[-1] in v._isa_ for k in kn)
+                def _names_of(k_: Any, node_: Any) -> Set[str]:
+                    # the class under the name it is written with and under the name it was imported from (`Node as _Node`)
+                    out_ = {(k_ or "?").split(".")[-1]}
+                    try:
+                        r_a = self.repo.resolve_expr(self.mod, node_, self.cls) if self.repo is not None and self.mod is not None and node_ is not None else None
+                    except Exception:
+                        r_a = None
+                    if isinstance(r_a, External):
+                        out_.add(r_a.dotted.split(".")[-1])
+                    elif isinstance(r_a, ClassInfo):
+                        out_.add(r_a.name)
+                    return out_
+
+                nodes_ = class_exprs + [None] * (len(kn) - len(class_exprs))
+                return any(_names_of(k, n_) & set(v._isa_) for k, n_ in zip(kn, nodes_))
             if type(v).__name__ == "AObj" and self.repo is not None:
                 names = {getattr(b, "name", None) or getattr(b, "dotted", "").split(".")[-1] for b in self.repo.mro(v._cls_)}
                 return any((k or "?").split(".")[-1] in names for k in kn)
